@@ -10,6 +10,8 @@ import (
 	"go/token"
 	"go/types"
 	"sort"
+	"strconv"
+	"strings"
 	"sync"
 
 	"golang.org/x/tools/go/ssa"
@@ -116,6 +118,19 @@ func (x *Exec) loopEnv(st *State, fr *Frame, l *loopInfo) *SpecEnv {
 			env.vars[ph.Comment] = TV{v, ph.Type()}
 		}
 	}
+	x.bindLocals(env, fr)
+	// index variables of the enclosing range loops: rangeindex<ordinal>
+	for _, ol := range x.loopsOf(fr.fn) {
+		for _, in := range ol.header.Instrs {
+			ph, ok := in.(*ssa.Phi)
+			if !ok {
+				break
+			}
+			if v, ok := fr.env[ph]; ok && ph.Comment == "rangeindex" {
+				env.vars[fmt.Sprintf("rangeindex%d", ol.ord)] = TV{v, ph.Type()}
+			}
+		}
+	}
 	// values defined before the loop that carry a source name via DebugRef are
 	// not available; named result parameters and free variables are covered by
 	// specEnvFor.
@@ -175,6 +190,7 @@ func (x *Exec) atLoopHeader(st *State, fr *Frame, h *ssa.BasicBlock) {
 	x.loopHook(st, fr, l, "entry")
 	// 3. assume invariants
 	env = x.loopEnv(st, fr, l)
+	env.assumeMode = true
 	for _, cl := range invs {
 		t, err := env.EvalBool(cl.Text)
 		if err != nil {
@@ -614,6 +630,92 @@ func (x *Exec) attachSliceFacts(st *State, arr *VAbsArr, t types.Type, v ssa.Val
 				x.callCounter++
 				return VIface{Nil: x.sym.Fresh(name+".elem.isnil", SBool), Val: VAwait{Sym: true, Kinds: kinds}, Typ: elemT}
 			}
+		}
+	}
+}
+
+// bindLocals adds the locals of a frame under their source names (DebugRef).
+func (x *Exec) bindLocals(env *SpecEnv, fr *Frame) {
+	for name, nr := range fr.names {
+		if _, taken := env.vars[name]; taken {
+			continue
+		}
+		v, ok := fr.env[nr.V]
+		if !ok {
+			continue
+		}
+		if nr.IsAddr {
+			if p, ok := v.(VPtr); ok && p.Loc != nil {
+				if pt, ok := nr.V.Type().Underlying().(*types.Pointer); ok {
+					env.vars[name] = TV{env.loadLoc(p.Loc, pt.Elem()), pt.Elem()}
+				}
+			}
+			continue
+		}
+		env.vars[name] = TV{v, nr.V.Type()}
+	}
+}
+
+// frameEnv is the spec environment at an arbitrary program point of a frame:
+// parameters, captured variables and locals by source name.
+func (x *Exec) frameEnv(st *State, fr *Frame) *SpecEnv {
+	env := x.specEnvFor(st, fr.fn, fr.params, nil, fr.entryHeap)
+	x.bindLocals(env, fr)
+	x.extendEnv(env, st, fr)
+	return env
+}
+
+// inLoop reports whether the frame's current block lies in loop ordinal n.
+func (x *Exec) inLoop(fr *Frame, n int) bool {
+	for _, l := range x.loopsOf(fr.fn) {
+		if l.ord == n {
+			return l.body[fr.block]
+		}
+	}
+	return false
+}
+
+// siteAsserts evaluates the "<kind> ..." site directives of the contract under
+// verification that apply at the current point of the top-level frame.
+//
+//	call <callee> assert <expr>            (callee parameters bound by name)
+//	[loop <n>] batch assert <expr>         (cmd = the *t_aio.Command being put into a slice)
+//	[loop <n>] yield <kind> assert <expr>  (sub = the kind's submission payload)
+func (x *Exec) siteAsserts(st *State, fr *Frame, kind, arg string, bind map[string]TV) {
+	if x.contract == nil || len(st.frames) == 0 || fr != st.frames[0] {
+		return
+	}
+	for _, key := range []string{"site"} {
+		for _, d := range x.contract.Directives[key] {
+			parts := strings.SplitN(d, " assert ", 2)
+			if len(parts) != 2 {
+				continue
+			}
+			hdr := strings.Fields(parts[0])
+			loopN := 0
+			if len(hdr) >= 2 && hdr[0] == "loop" {
+				loopN, _ = strconv.Atoi(hdr[1])
+				hdr = hdr[2:]
+			}
+			if len(hdr) == 0 || hdr[0] != kind {
+				continue
+			}
+			if len(hdr) > 1 && hdr[1] != arg {
+				continue
+			}
+			if loopN != 0 && !x.inLoop(fr, loopN) {
+				continue
+			}
+			env := x.frameEnv(st, fr)
+			for k, v := range bind {
+				env.vars[k] = v
+			}
+			t, err := env.EvalBool(parts[1])
+			if err != nil {
+				x.unsupported(st, err.Error())
+				return
+			}
+			x.oblige(st, "site", fmt.Sprintf("%s: %s", strings.TrimSpace(parts[0]), parts[1]), t, token.NoPos, x.contract.Props)
 		}
 	}
 }
